@@ -443,7 +443,7 @@ fn seed_fields(seed: &Seed) -> Result<Vec<Field>, String> {
     let b = &seed.bytes[..];
     let n = b.len();
     let mut out: Vec<Field> = vec![];
-    let mut push_fo = |out: &mut Vec<Field>, fo: &m2::FieldOffsets| for &(name, off, width) in fo { if off + width <= n && width > 0 { out.push(Field { name, off, width }); } };
+    let push_fo = |out: &mut Vec<Field>, fo: &m2::FieldOffsets| for &(name, off, width) in fo { if off + width <= n && width > 0 { out.push(Field { name, off, width }); } };
     match seed.kind {
         Kind::Anm => {
             let layout = m2::anm_instr_layout(seed.game);
@@ -1306,7 +1306,7 @@ pub fn run(tier: &str) -> Report {
     let mut phases_done: Vec<String> = vec![];
 
     // ---- run a list of cases and fold the results
-    let mut run_cases = |gen: &Gen, agg: &mut Agg, rep: &mut Report, cases: &[Case], what: &str| -> bool {
+    let run_cases = |gen: &Gen, agg: &mut Agg, rep: &mut Report, cases: &[Case], what: &str| -> bool {
         if cases.is_empty() { return true; }
         let dk = |c: &Case| format!("{}:{}", seeds[c.seed].fmt(), gen.classes.name(c.class));
         let results = pool.run(cases, deadline, &dk);
@@ -1376,9 +1376,8 @@ pub fn run(tier: &str) -> Report {
                 if let (Some(d), Some(base)) = (default_class, agg.seed_class[c.seed].get(&RUN_DEFAULT)) { if &d != base { agg.nontrivial += 1; } }
             }
         }
-        if !complete { return false; }
         let _ = what;
-        true
+        complete
     };
 
     // ---- phase 0: the unfaulted seeds (their outcome classes are the baseline of the non-trivial rule)
@@ -1434,7 +1433,6 @@ pub fn run(tier: &str) -> Report {
         if cut.is_none() { phases_done.push(format!("D: pairs of field faults (5 values each) on {} seeds <= 1700 bytes{}", small.len(), if capped_seeds.is_empty() { String::new() } else { format!("; capped at 400k pairs for {}", capped_seeds.join(",")) })); }
     }
     pool.shutdown();
-    drop(run_cases);
 
     // ---- fold into the report
     for e in pool.machinery.lock().unwrap().iter() { rep.machinery_errors.push(e.clone()); }
@@ -1483,7 +1481,6 @@ pub fn run(tier: &str) -> Report {
 // replay
 
 pub fn replay(detail: &Value) -> i32 {
-    if std::env::var(WORKER_ENV).is_ok() { worker_main(); }
     let (seeds, _notes, _errors) = build_seeds();
     let digest = seeds_digest(&seeds);
     let name = detail["seed"].as_str().unwrap_or("");
